@@ -443,8 +443,14 @@ class _PartialEvalInstance(DefaultVisitor):
                 return
 
     def _visit_while(self, stmt: WhileStmt, ctx: Context | None):
-        self._visit_expr(stmt.cond, ctx)
-        self._loop_fixpoint(stmt, lambda: self._visit_block(stmt.body, ctx))
+        # The condition reads the loop-header phis, so it belongs to the
+        # fixpoint: visited before them it sees no phi on the first walk and a
+        # *stale* one when an enclosing loop walks this statement again.
+        def run_body():
+            self._visit_expr(stmt.cond, ctx)
+            self._visit_block(stmt.body, ctx)
+
+        self._loop_fixpoint(stmt, run_body)
 
     def _visit_for(self, stmt: ForStmt, ctx: Context | None):
         self._visit_expr(stmt.iterable, ctx)
